@@ -439,6 +439,13 @@ def check_step(world, step, top, idx, first_req):
             # as an observation and is not a verdict
             out.append({"prop": "observation", "step": idx, "kind": "bare OSError escaped %s" % name})
             return out
+        if is_request and name in ("command", "query") and top.get("a") and not isinstance(top["a"][0], str) \
+                and isinstance(exc, (TypeError, ValueError, AttributeError)):
+            # request text that is not a string is outside the statement; refusing it with a TypeError (before or
+            # after the guard) is argument validation, not a request that failed
+            out.append({"prop": "observation", "step": idx, "kind": "non-string request text rejected with %s"
+                        % type(exc).__name__})
+            return out
         if is_request:
             out.append({"prop": "C04" if blocked else "C05", "step": idx,
                         "kind": "public request method raised", "method": name, "exception": repr(exc),
